@@ -86,6 +86,15 @@ pub fn programs(big: bool) -> Vec<(String, String)> {
         // an array of N arrays, each alive only through it, read after a collection
         v.push((format!("nested-arrays-alive-{}", n), format!("functie f() {{ 0 }}; stel a = [{}]; f(); stel q = a[{}]; [a[0], a[{}], q[1]]", join(n, ", ", |k| format!("[{}, \"t{}\"]", k, k)), n / 2, n - 1)));
     }
+    // the body of a function ends in a bare block whose last statement is a declaration, and that declaration lands in local
+    // slot N (N - 1 locals in front of it): for every N = 256 * k + 1 the high byte of the slot number is k — any opcode
+    for k in 1usize..=48 {
+        let n = 256 * k + 1;
+        v.push((
+            format!("tail-block-declaration-{}", n),
+            format!("functie f() {{ {}; {{ stel x = 7 }} }}; functie g() {{ {}; {{ 5; stel y = l0 }} }}; [f(), g(), 1]", join(n - 1, "; ", |j| format!("stel l{} = {}", j, j)), join(n - 1, "; ", |j| format!("stel l{} = {}", j, j))),
+        ));
+    }
     // a small construct behind K statements of 4 bytes each, K sweeping over the window in which the construct's jumps
     // and the return address of its call straddle code offset 65 536 (jump operands are 16 bits wide): the value, or
     // the syntax error of the documented limit — nothing else
@@ -117,6 +126,10 @@ pub fn may_hit_limit(name: &str) -> bool {
     let n = size_of(name);
     if name.starts_with("code-offset-") {
         return true;
+    }
+    if name.starts_with("tail-block-declaration-") {
+        // two bodies of N declarations, about 7 bytes each, jumped over by the function definitions
+        return n >= 4000;
     }
     if name.starts_with("arguments-") {
         return n > 255;
